@@ -9,5 +9,6 @@ CONSTANTS
  FixNifty = TRUE
  AtomicAdopt = TRUE
  RefreshExpected = TRUE
+ ReleaseLast = TRUE
 INVARIANT NotWitnessPushRetry
 CHECK_DEADLOCK FALSE
